@@ -41,6 +41,9 @@ PROPS = {
     "C03": {"jobs": [J("lr.std", "wl_lr", 200000, 6000000, mode="std")]},
     "C05": {"jobs": [J("rcu.std", "wl_rcu", 120000, 3000000, mode="std", elem=0),
                      J("rcu.std.string", "wl_rcu", 40000, 1000000, mode="std", elem=1)]},
+    "C09": {"jobs": [J("barrier", "wl_barrier", 300000, 8000000)]},
+    "C10": {"jobs": [J("latch", "wl_latch", 300000, 8000000)]},
+    "C11": {"jobs": [J("trigger", "wl_trigger", 200000, 5000000)]},
     "C12": {"jobs": [J("rcu.std", "wl_rcu", 120000, 3000000, mode="std", elem=0),
                      J("rcu.std.blob", "wl_rcu", 40000, 1000000, mode="std", elem=2)]},
     "C13": {"jobs": [J("rcu.c13.tracked", "wl_rcu", 60000, 1500000, mode="c13", elem=0),
